@@ -436,6 +436,27 @@ class ScfHistories:
             want = float(get_Eewald(scf.atoms))
             if abs(float(scf.energies.Eewald) - want) > 1e-10:
                 bad.append(dict(history=f"run(); scf.atoms = new geometry ({desc}); run()", stored_Eewald=float(scf.energies.Eewald), lattice_sum_of_current_geometry=want, first_run=e1))
+        # recenter of a converged calculation by a grid vector: orbitals and density move with the atoms, so the state stays converged
+        for center, pos in ((None, [4.0, 2.5, 4.5]), ([2.0, 3.5, 2.5], [3.0, 3.0, 4.0])):
+            for unres in (False, True):
+                at = Atoms("He", pos, ecut=4, a=6, unrestricted=unres)
+                at.s = 12
+                scf = SCF(at, etol=1e-10, opt={"pccg": 80}, verbose="critical")
+                e0 = float(scf.run())
+                n0 = np.asarray(scf.n).copy()
+                scf.recenter(center=center)
+                want_pos = np.asarray([3.0, 3.0, 3.0] if center is None else center)
+                shift = np.rint((want_pos - np.asarray(pos)) / 0.5).astype(int)
+                n_moved = np.roll(n0.reshape(-1, 12, 12, 12), tuple(shift), axis=(1, 2, 3)).reshape(n0.shape)
+                desc = f"He at {pos}, unrestricted={unres}: run(); recenter(center={center})"
+                if vdiff(scf.atoms.pos, want_pos[None]) > 1e-12:
+                    bad.append(dict(history=desc, position_after=np.asarray(scf.atoms.pos).tolist()))
+                if scf.n is None or vdiff(scf.n, n_moved) > 1e-8:
+                    bad.append(dict(history=desc, density_not_moved_with_the_atom_by=None if scf.n is None else vdiff(scf.n, n_moved)))
+                scf.opt = {"sd": 1}
+                e1 = float(scf.run())
+                if abs(e1 - e0) > 1e-6:
+                    bad.append(dict(history=desc + "; one more step", energy_before=e0, energy_after=e1))
         return bad
 
     def __call__(self, ob, tier, seed):
@@ -447,7 +468,7 @@ class ScfHistories:
             bad = [dict(raised=f"{type(e).__name__}: {e}")]
         if bad:
             return Result(REFUTED, backend="native", witness=bad[0], replayed=True, replay_info=dict(failing=bad[:4]), detail=f"SCF history differs from a fresh object: {bad[0]}")
-        return Result(BOUNDED_OK, backend="native", detail="bounded: pot_params set / reset / set again (harmonic, lr), geometry changed between two runs (stored Ewald energy): as fresh objects")
+        return Result(BOUNDED_OK, backend="native", detail="bounded: pot_params set / reset / set again (harmonic, lr), geometry changed between two runs (stored Ewald energy): as fresh objects; recenter of a converged run by a grid vector keeps density, orbitals and energy with the atoms")
 
     def replay(self, wit):
         bad = self.problems()
